@@ -91,12 +91,6 @@ end
 
 /-! ## decoder -/
 
-structure Cfg where
-  /-- wire lengths and counts are checked against `decoder.remain` (and negative sizes rejected) before
-  anything is allocated -/
-  bounded : Bool
-  deriving Repr, BEq, Inhabited
-
 /-- decoder state: the bytes still in the stream and `decoder.remain` -/
 structure Dec where
   inp : Bytes
@@ -117,6 +111,19 @@ inductive Res (α : Type) where
   | .panic => .panic
   | .balloon => .balloon
 
+structure Cfg where
+  /-- wire lengths and counts are checked against `decoder.remain` (and negative sizes rejected) before
+  anything is allocated -/
+  bounded : Bool
+  /-- arrays, strings and byte sequences are allocated as their data ARRIVES (`decodeElems`: at most 1024 elements ahead,
+  `read`: at most 64 KiB ahead of the bytes received) instead of the whole announced length upfront.  `remain` is only what
+  the frame size prefix announces; `inp` is what the connection really delivers -/
+  growing : Bool := true
+  /-- how a `protocol.RecordSet` field is read: `none` = the value-level view used by C04 (size prefix, then the
+  payload as an opaque blob); `some h` = a detailed reader of the record-set inside (Model/RecordScan.lean,
+  used by C20) -/
+  recs : Option (Dec → Res Val) := none
+
 /-- `readFull(d.buffer[:k])` for a fixed `k > 0` -/
 def readN (k : Nat) (d : Dec) : Res Bytes :=
   if k ≤ d.remain ∧ k ≤ d.inp.length then .ok (d.inp.take k) ⟨d.inp.drop k, d.remain - k⟩ else .error
@@ -134,6 +141,7 @@ def readUvarint (d : Dec) : Res Nat :=
 def readLen (cfg : Cfg) (n : Int) (d : Dec) : Res Bytes :=
   if n < 0 then (if cfg.bounded then .error else .panic)
   else if n.toNat > d.remain then (if cfg.bounded then .error else .balloon)
+  else if !cfg.growing && n.toNat > d.inp.length + 65536 then .balloon   -- `make([]byte, n)` far beyond what will ever arrive
   else if n.toNat ≤ d.inp.length then .ok (d.inp.take n.toNat) ⟨d.inp.drop n.toNat, d.remain - n.toNat⟩
   else .error
 
@@ -146,6 +154,7 @@ def lenOfU (cfg : Cfg) (u : Nat) : Int :=
 def allocElems (cfg : Cfg) (n : Int) (d : Dec) : Res Nat :=
   if n < 0 then (if cfg.bounded then .error else .panic)
   else if n.toNat > d.remain then (if cfg.bounded then .error else .balloon)
+  else if !cfg.growing && n.toNat > d.inp.length + 1024 then .balloon   -- `makeArray(n)` for elements that will never arrive
   else .ok n.toNat d
 
 /-- `for i := 0; i < n && d.remain > 0; i++ { decodeElem(d, a.index(i)) }`; slots not reached keep `z` -/
@@ -241,9 +250,12 @@ def decode (cfg : Cfg) : Ty → Dec → Res Val
   | .records, d =>
     -- RecordSet.ReadFrom: size := d.readInt32(); size <= 0 → empty set; else the next `size` bytes are the
     -- batches (their inside is property C05's; here an opaque payload)
-    (readInt 4 d).bind fun n d =>
-      if n ≤ 0 then .ok (.records none) d
-      else (readLen cfg n d).bind fun bs d => .ok (.records (some bs)) d
+    match cfg.recs with
+    | some h => h d
+    | none =>
+      (readInt 4 d).bind fun n d =>
+        if n ≤ 0 then .ok (.records none) d
+        else (readLen cfg n d).bind fun bs d => .ok (.records (some bs)) d
 def decodeFields (cfg : Cfg) : List Ty → Dec → Res (List Val)
   | [], d => .ok [] d
   | t :: ts, d => (decode cfg t d).bind fun v d => (decodeFields cfg ts d).bind fun vs d => .ok (v :: vs) d
@@ -304,6 +316,36 @@ def readRequestBody (cfg : Cfg) (flex : Bool) (t : Ty) (d : Dec) : Res Val :=
    else .ok () d).bind fun _ d =>
   (decode cfg t d).bind fun v d =>
   (discardAll d).bind fun _ d => .ok v d
+
+/-- `ReadRequest(r)`: size, api key, version, correlation id, client id, then the body of the request type `t` that
+(key, version) select -/
+def readRequest (cfg : Cfg) (flex : Bool) (t : Ty) (stream : Bytes) : Res (Int × Int × Int × Bytes × Val) :=
+  (readInt 4 ⟨stream, 4⟩).bind fun size d =>
+    if size < 0 then (if cfg.bounded then .error else .panic)
+    else
+      let d : Dec := ⟨d.inp, size.toNat⟩
+      (readInt 2 d).bind fun key d =>
+      (readInt 2 d).bind fun ver d =>
+      (readInt 4 d).bind fun corr d =>
+      (decode cfg (.string false flex) d).bind fun cid d =>
+      (readRequestBody cfg flex t d).bind fun v d =>
+        .ok (key, ver, corr, (match cid with | .str s => s | _ => []), v) d
+
+
+/-! ## the un-framed SASL exchange (`saslauthenticate.(*Request).readResp`): INT32 length, then that many bytes -/
+structure SaslCfg where
+  /-- `if respLen < 0 { return … }` before the length is used -/
+  negChecked : Bool
+  /-- the buffer grows with the bytes received (`io.CopyN` into a `bytes.Buffer`) instead of `make([]byte, respLen)` -/
+  grows : Bool
+
+/-- `readResp` on the bytes the connection delivers before it ends: the token, an error, a panic (`make` with a negative
+length) or an allocation beyond the bytes received -/
+def saslReadResp (c : SaslCfg) (stream : Bytes) : Res Bytes :=
+  (readInt 4 ⟨stream, 4⟩).bind fun n d =>
+    if n < 0 then (if c.negChecked then .error else .panic)
+    else if d.inp.length < n.toNat then (if c.grows then .error else .balloon)
+    else .ok (d.inp.take n.toNat) ⟨d.inp.drop n.toNat, 0⟩
 
 /-! ## what a round trip returns -/
 
